@@ -437,6 +437,18 @@ async fn fabitn(
         // sender and for the ot receiver. We would likely need a notion of sub-channels over
         // an existing channel for this.
         debug!("Starting pairwise OT with party {}", k);
+        // verification taps: a cheater that uses other choice bits or another key towards one peer
+        #[cfg(feature = "__verif")]
+        let (x, deltas) = {
+            let mut xk = x.clone();
+            crate::verif::hook(&format!("abit_x:{k}"), crate::verif::Hook::Bools(&mut xk));
+            let mut dk: Vec<u128> = deltas.iter().map(|d| u128::from_be_bytes((*d).into())).collect();
+            crate::verif::hook(&format!("abit_delta:{k}"), crate::verif::Hook::U128s(&mut dk));
+            let dk: Vec<Block> = dk.into_iter().map(|d| Block::from(d.to_be_bytes())).collect();
+            (xk, dk)
+        };
+        #[cfg(feature = "__verif")]
+        let (x, deltas) = (&x, &deltas);
         if let Some(shared) = &mut rng {
             if i < k {
                 let keys = kos_ot_sender(channel, &deltas, k, shared).await?;
